@@ -1,0 +1,45 @@
+//go:build verif
+
+package verifshim
+
+import (
+	"github.com/llir/llvm/internal/enc"
+	"github.com/llir/llvm/internal/gep"
+	"github.com/llir/llvm/internal/natsort"
+	"github.com/llir/llvm/ir/types"
+)
+
+// NatLess is natsort.Less.
+func NatLess(a, b string) bool { return natsort.Less(a, b) }
+
+// NatStrings is natsort.Strings.
+func NatStrings(a []string) { natsort.Strings(a) }
+
+// Identifier and string encoders of package enc.
+var (
+	GlobalName   = enc.GlobalName
+	GlobalID     = enc.GlobalID
+	LocalName    = enc.LocalName
+	LocalID      = enc.LocalID
+	LabelName    = enc.LabelName
+	LabelID      = enc.LabelID
+	TypeName     = enc.TypeName
+	AttrGroupID  = enc.AttrGroupID
+	ComdatName   = enc.ComdatName
+	MetadataName = enc.MetadataName
+	MetadataID   = enc.MetadataID
+	EscapeIdent  = enc.EscapeIdent
+	EscapeString = enc.EscapeString
+	Escape       = enc.Escape
+	Unescape     = enc.Unescape
+	Quote        = enc.Quote
+	Unquote      = enc.Unquote
+)
+
+// GepIndex is gep.Index.
+type GepIndex = gep.Index
+
+// GepResultType is gep.ResultType.
+func GepResultType(elemType, src types.Type, indices []GepIndex) types.Type {
+	return gep.ResultType(elemType, src, indices)
+}
